@@ -3,7 +3,7 @@ from __future__ import annotations
 
 import numpy as np
 
-from .common import FreshRhs, FreshRhsWithJac, patched, verdict_root_stub, ctrl_stub, run, flat
+from .common import absval, maxval, FreshRhs, FreshRhsWithJac, patched, verdict_root_stub, ctrl_stub, run, flat
 
 PROPERTY = "C02"
 LEVEL = "other"
@@ -78,6 +78,9 @@ def instances(tier):
             out.append(dict(id="%s-%s-accept" % (cls.__name__, tag), cls=cls.__name__, shape=list(sh), mode="accept", budget=b))
         out.append(dict(id="%s-1-allfail" % cls.__name__, cls=cls.__name__, shape=[1], mode="allfail", budget=b))
         out.append(dict(id="%s-1-accept-anyctrl" % cls.__name__, cls=cls.__name__, shape=[1], mode="accept", ctrl="free", budget=b))
+        if tier != "quick" or cls.__name__ in ("BackwardEuler", "GaussLegendre4", "RadauIIA5", "LobattoIIIC4", "CrankNicolson"):
+            # a second call of the same object from a state of another magnitude: its stage equations are solved to ITS tolerance
+            out.append(dict(id="%s-1-accept-second-call-other-scale" % cls.__name__, cls=cls.__name__, shape=[1], mode="accept", second_call=True, max_fail=1, budget=b))
     return out
 
 
@@ -347,9 +350,27 @@ def scenario(c, inst):
     else:
         integ.update_timestep = ctrl_stub(c, integ, fixed=1.0)
     succ = "false" if mode == "allfail" else "fork"
+
+    def documented_tol(state):
+        # the residual an implicit stage solve has to reach: half of atol + rtol*max|y| for the state THIS step starts from
+        m = absval(c, flat(c, state)[0])
+        for v in flat(c, state)[1:]:
+            m = maxval(c, m, absval(c, v))
+        return 0.5 * (float(integ.atol) + float(integ.rtol) * m)
+    if inst.get("second_call"):
+        # history: the object has already taken one (accepted) step from a state of another magnitude
+        y_first = c.array([c.real("yfirst%d" % i) for i in range(n)]).reshape(shape)
+        with patched(opt, "nonlinear_roots", verdict_root_stub(c, success="true", prec="zero", log=[])):
+            st0, r0 = run(integ, rhs, t - h, y_first, {}, h)
+        if st0 != "ok":
+            c.check("c02.accept.first_call_returns", False, info=repr(r0))
+            return
     with patched(opt, "nonlinear_roots", verdict_root_stub(c, success=succ, prec="zero" if mode == "allfail" else "sym", log=log,
                                                            max_fail=inst.get("max_fail", 2))):
         st, r = run(integ, rhs, t, y, {}, h)
+    if log and mode != "allfail":
+        c.check("c02.accept.stage_solver_is_given_the_tolerance_of_this_steps_state", c.all([c.eq(e["tol"], documented_tol(y), 1) for e in log]),
+                info=dict(solves=len(log)))
     from desolver.exception_types import FailedToMeetTolerances
     if st == "exc":
         if isinstance(r, FailedToMeetTolerances):
